@@ -277,7 +277,7 @@ fn hostile_frame(rng: &mut Rng, sos: &[u64]) -> HFrame {
 fn record(outp: &str, resp: &str) {
     let seed = vh_core::seed_from_env();
     let thorough = vh_core::tier_is_thorough();
-    let runs: u64 = std::env::var("VERIF_RUNS").ok().and_then(|s| s.parse().ok()).unwrap_or(if thorough { 400 } else { 60 });
+    let runs: u64 = std::env::var("VERIF_RUNS").ok().and_then(|s| s.parse().ok()).unwrap_or(if thorough { 160 } else { 60 });
     let q: usize = std::env::var("VERIF_Q").ok().and_then(|s| s.parse().ok()).unwrap_or(3);
     let mut rng = Rng::new(seed ^ (q as u64) << 32);
     let mut rec = Recorder { w: NdjsonWriter::create(outp), events: 0 };
